@@ -51,7 +51,8 @@ class C04(HistoryProp):
         for _ in range(1 + src.n(3)):
             preds, clauses = gen.gen_program(src, CFG)
             scripts.append((preds, clauses))
-        if src.n(3) == 0:
+        nested_anon = src.n(3) == 0
+        if nested_anon:
             # compiled FACTS with anonymous variables inside structures: every use of such a fact has variables of its own,
             # also when two uses are suspended at the same time
             scripts.append(([('p', 1), ('q', 1)],
@@ -60,6 +61,16 @@ class C04(HistoryProp):
         open_q = []       # (qid, engine)
         qid = 0
         known = {e: [] for e in engines}      # predicates known per engine (for queries)
+        if nested_anon:
+            # ... loaded at once, with two uses of the same fact opened side by side (different values at the place of `_`)
+            e = src.pick(engines)
+            ops.append(['load', e, scripts[-1][1], True, 'ok'])
+            known[e] = list(scripts[-1][0])
+            for val in (('a', 'a'), ('a', 'b')):
+                qid += 1
+                ops.append(['open', e, qid, ('f', 'p', (('f', 'f', (val,)),))])
+                ops.append(['step', qid])
+                open_q.append((qid, e))
         ngfacts = {e: [] for e in engines}    # non-ground facts asserted per engine
         for _ in range(8 + src.n(30)):
             e = src.pick(engines)
